@@ -10,7 +10,15 @@ for d in sorted(glob.glob('/verif/seeded/*/')):
     needs = re.sub(r'\s+', ' ', m.get('needs_to_manifest') or '')
     needs = needs[:170] + ('...' if len(needs) > 170 else '')
     fr = m.get('first_run', '')
-    first = 'missed; check strengthened' if ('missed' in fr and not fr.startswith('detected')) else 'detected'
+    own = m.get('property') in m.get('detected_by', [])
+    if 'missed by all' in fr or fr.startswith('missed as first delivered'):
+        first = 'missed by every check; own check strengthened'
+    elif 'itself missed it' in fr:
+        first = 'caught by another check only; own check strengthened'
+    elif not own:
+        first = 'caught by another check (outside the own check\'s domain, see meta.json)'
+    else:
+        first = 'detected'
     rows.append((name, m.get('property'), what.replace('|', '/'), needs.replace('|', '/'), first, ' '.join(m.get('detected_by', []))))
 print('| change | breaks | what it does | needs | as first delivered | caught by (now) |')
 print('|---|---|---|---|---|---|')
